@@ -1679,11 +1679,34 @@ XSLTEngineImpl::characters(
 
 
 
+bool
+XSLTEngineImpl::hasEmptyData(const XalanNode&   node) const
+{
+    assert(m_executionContext != 0);
+
+    const ECGetCachedString     theGuard(*m_executionContext);
+
+    XalanDOMString&     theData = theGuard.get();
+
+    DOMServices::getNodeData(node, *m_executionContext, theData);
+
+    return theData.empty();
+}
+
+
+
 void
 XSLTEngineImpl::characters(const XalanNode&     node)
 {
     assert(getFormatterListenerImpl() != 0);
     assert(m_hasCDATASectionElements == m_stylesheetRoot->hasCDATASectionElements());
+
+    // An empty string-value creates no text node, so the
+    // pending element must stay open for attributes.
+    if (isElementPending() == true && hasEmptyData(node) == true)
+    {
+        return;
+    }
 
     doFlushPending();
 
@@ -1785,6 +1808,13 @@ XSLTEngineImpl::charactersRaw(
 void
 XSLTEngineImpl::charactersRaw(const XalanNode&  node)
 {
+    // An empty string-value creates no text node, so the
+    // pending element must stay open for attributes.
+    if (isElementPending() == true && hasEmptyData(node) == true)
+    {
+        return;
+    }
+
     doFlushPending();
 
     DOMServices::getNodeData(
